@@ -453,7 +453,7 @@ impl Sim {
             .collect()
     }
 
-    fn poll_with<F: Future + ?Sized>(fut: Pin<&mut F>, flag: &Arc<WakeFlag>) -> Result<Poll<F::Output>, String> {
+    pub(super) fn poll_with<F: Future + ?Sized>(fut: Pin<&mut F>, flag: &Arc<WakeFlag>) -> Result<Poll<F::Output>, String> {
         flag.0.store(false, Ordering::SeqCst);
         let waker = Waker::from(flag.clone());
         let mut cx = Context::from_waker(&waker);
@@ -469,8 +469,12 @@ impl Sim {
     }
 
     fn collect_spawned(&mut self, by: Actor, rep: &mut StepReport) {
+        self.absorb_spawned(by, hooks::take_spawned(), rep);
+    }
+
+    pub(super) fn absorb_spawned(&mut self, by: Actor, spawned: Vec<hooks::Spawned>, rep: &mut StepReport) {
         let step = world::with(|w| w.step);
-        for s in hooks::take_spawned() {
+        for s in spawned {
             let idx = self.bgs.len();
             rep.obs.push(format!("spawn t{idx} at {}", s.site.rsplit('/').next().unwrap_or("")));
             self.bgs.push(Bg {
@@ -500,10 +504,8 @@ impl Sim {
             Ev::Issue { o, h2 } => {
                 let r = self.reqs.len() as u8;
                 actor = Actor::Req(r);
-                world::with(|w| {
-                    w.actor = Some(actor);
-                    w.request_h2.push(h2);
-                });
+                world::set_actor(Some(actor));
+                world::with(|w| w.request_h2.push(h2));
                 let uri = format!("{}/r{}", self.cfg.origins[o as usize], r);
                 let req = http::Request::builder()
                     .uri(uri)
@@ -550,7 +552,7 @@ impl Sim {
             }
             Ev::Poll(r) => {
                 actor = Actor::Req(r);
-                world::with(|w| w.actor = Some(actor));
+                world::set_actor(Some(actor));
                 let req = &mut self.reqs[r as usize];
                 req.polled = true;
                 let res = {
@@ -585,7 +587,7 @@ impl Sim {
             }
             Ev::Cancel(r) => {
                 actor = Actor::Req(r);
-                world::with(|w| w.actor = Some(actor));
+                world::set_actor(Some(actor));
                 let step = world::with(|w| w.step);
                 let req = &mut self.reqs[r as usize];
                 let stage = req.fut.as_ref().map(|f| f.verif_stage()).unwrap_or_default();
@@ -658,7 +660,7 @@ impl Sim {
             }),
             Ev::RunBg(t) => {
                 actor = Actor::Bg(t);
-                world::with(|w| w.actor = Some(actor));
+                world::set_actor(Some(actor));
                 let bg = &mut self.bgs[t as usize];
                 bg.polled = true;
                 let res = {
@@ -725,7 +727,7 @@ impl Sim {
                 advance_virtual_time(Duration::from_millis(self.cfg.t_ms * half / 2));
             }
         }
-        world::with(|w| w.actor = None);
+        world::set_actor(None);
         self.collect_spawned(actor, &mut rep);
         // bookkeeping derived from diffs
         let post_snap = self.snapshot();
@@ -758,7 +760,7 @@ impl Sim {
     }
 
     /// A connection the statement says must be reused by a request for origin `o` issued now.
-    fn available_conn(&self, snap: &hooks::PoolSnapshot, o: u8, _h2: bool) -> Option<usize> {
+    pub(super) fn available_conn(&self, snap: &hooks::PoolSnapshot, o: u8, _h2: bool) -> Option<usize> {
         let tok = self.token_of(snap, o)?;
         let ts = snap.tokens.iter().find(|t| t.token == tok)?;
         let t = self.cfg.idle_timeout.filter(|&t| t > 0).map(|t| Duration::from_millis(t * self.cfg.t_ms));
@@ -774,7 +776,7 @@ impl Sim {
     }
 
     /// Maintain `waiter_log`, `inbox`, `ever_pooled`, `last_handback_step` from before/after snapshots.
-    fn track(&mut self, pre: &hooks::PoolSnapshot, post: &hooks::PoolSnapshot, e: Ev, n_conns_before: usize, rep: &mut StepReport) {
+    pub(super) fn track(&mut self, pre: &hooks::PoolSnapshot, post: &hooks::PoolSnapshot, e: Ev, n_conns_before: usize, rep: &mut StepReport) {
         // 1. waiter log: an Issue whose request did not get an idle connection enqueued a waiter;
         //    one that did holds the popped entry in its checkout
         if let Ev::Issue { o, .. } = e {
@@ -956,7 +958,7 @@ impl world::ConnState {
     }
 }
 
-fn classify_error(e: &hyperdriver::client::Error) -> String {
+pub(super) fn classify_error(e: &hyperdriver::client::Error) -> String {
     let mut s = format!("{e}");
     let mut src = std::error::Error::source(e);
     while let Some(x) = src {
